@@ -113,8 +113,16 @@ func ruleScopeBeforeDefinitions(c *Ctx, rule string) {
 			}
 		})
 		for _, l := range condsOf(cds, b) {
-			ex, ok := l.Cond.(*ssa.Extract)
-			if !ok || ex.Index != 1 || l.Pol {
+			v, pol := l.Cond, l.Pol
+			for {
+				u, isNot := v.(*ssa.UnOp)
+				if !isNot || u.Op != token.NOT {
+					break
+				}
+				v, pol = u.X, !pol
+			}
+			ex, ok := v.(*ssa.Extract)
+			if !ok || ex.Index != 1 || pol {
 				continue
 			}
 			lk, ok := ex.Tuple.(*ssa.Lookup)
@@ -818,142 +826,6 @@ func rulePrimitiveLoopsEndWithInput(c *Ctx, rule string) {
 }
 
 // ---------------------------------------------------------------------------------------------
-// C14.R14: in a regular expression `|` binds weaker than writing things one after the other.
-//
-// `ab|cd` is (ab)|(cd). In a recursive-descent parser that is a matter of where the loop over the terms of a sequence stops: the
-// sequence must end at a `|` just as it ends at the `)` of its group, so that the alternation is made of whole sequences. A
-// sequence loop that stops at `)` only, while the `|` is looked at somewhere below the loop's body, makes the alternation out of
-// single terms: `ab|cd` is read as a(b|c)d.
-func ruleAlternationOfSequences(c *Ctx, rule string) {
-	r := c.R
-	isByteOf := func(v ssa.Value, ch int64) bool {
-		k, ok := constInt(v)
-		return ok && k == ch
-	}
-	// functions of the regexp sub-parser: they take the text of the literal as a string and an index
-	var fns []*ssa.Function
-	for _, fn := range c.SrcFuncs("ast") {
-		hasStr, hasInt := false, false
-		for _, p := range fn.Params {
-			if b, ok := p.Type().Underlying().(*types.Basic); ok {
-				if b.Kind() == types.String {
-					hasStr = true
-				}
-				if b.Kind() == types.Int {
-					hasInt = true
-				}
-			}
-		}
-		if hasStr && hasInt && strings.Contains(strings.ToLower(fn.Name()), "regexp") {
-			fns = append(fns, fn)
-		}
-	}
-	testsFor := func(fn *ssa.Function, ch int64) bool {
-		found := false
-		instrsOf(fn, func(in ssa.Instruction) {
-			if b, ok := in.(*ssa.BinOp); ok && (b.Op == token.EQL || b.Op == token.NEQ) && (isByteOf(b.X, ch) || isByteOf(b.Y, ch)) {
-				if isTextByte(b.X) || isTextByte(b.Y) {
-					found = true
-				}
-			}
-		})
-		return found
-	}
-	n := 0
-	for _, fn := range fns {
-		for _, comp := range sccs(fn, func(a, b *ssa.BasicBlock) bool { return true }) {
-			in := map[*ssa.BasicBlock]bool{}
-			for _, b := range comp {
-				in[b] = true
-			}
-			// the loop's exit tests: comparisons of a byte of the text with a constant, on a branch that leaves the loop
-			exitsOn := map[int64]bool{}
-			for _, b := range comp {
-				iff, ok := b.Instrs[len(b.Instrs)-1].(*ssa.If)
-				if !ok {
-					continue
-				}
-				leaves := false
-				for _, s := range b.Succs {
-					if !in[s] {
-						leaves = true
-					}
-				}
-				if !leaves {
-					continue
-				}
-				if cmp, ok := iff.Cond.(*ssa.BinOp); ok && (cmp.Op == token.EQL || cmp.Op == token.NEQ) {
-					for _, pair := range [][2]ssa.Value{{cmp.X, cmp.Y}, {cmp.Y, cmp.X}} {
-						if isTextByte(pair[0]) {
-							if k, ok := constInt(pair[1]); ok {
-								exitsOn[k] = true
-							}
-						}
-					}
-				}
-			}
-			if !exitsOn[')'] {
-				continue
-			}
-			// a sequence loop: it calls into the sub-parser and collects what comes back
-			calls := false
-			var below []*ssa.Function
-			for _, b := range comp {
-				for _, ins := range b.Instrs {
-					if sc := staticCallee(ins); sc != nil && sc.Pkg == fn.Pkg {
-						for _, f := range fns {
-							if f == sc {
-								calls = true
-								below = append(below, sc)
-							}
-						}
-					}
-				}
-			}
-			if !calls {
-				continue
-			}
-			n++
-			ob := r.Ob(rule, fnName(fn)+": a sequence of terms ends at `|` as it ends at `)`", c.pos(comp[0].Instrs[0].Pos()))
-			if exitsOn['|'] {
-				ob.OKnt("the loop over the terms leaves on `)` and on `|`: an alternation is made of whole sequences")
-				continue
-			}
-			// the sequence does not end at `|`: then `|` must not be an operator at all
-			_ = below
-			var hit *ssa.Function
-			for _, f := range fns {
-				if testsFor(f, '|') {
-					hit = f
-					break
-				}
-			}
-			if hit != nil {
-				ob.Bad("the loop over the terms of a sequence stops at `)` only, while `|` is looked at in " + fnName(hit) + ": an alternation is not made of whole sequences (made of single terms, `ab|cd` is read as a(b|c)d and finds \"abd\" and \"acd\" and neither \"ab\" nor \"cd\"; left to the term parser, the `|` is taken for a character)")
-			} else {
-				ob.OKnt("the sub-parser does not look at `|` anywhere")
-			}
-		}
-	}
-	if n == 0 {
-		r.Ob(rule, "anchor: the loop over the terms of a sequence in the regexp sub-parser", "").Und("no loop of the regexp sub-parser leaves on `)` and calls back into the sub-parser")
-	}
-}
-
-// isTextByte: v is a byte taken out of a string by indexing.
-func isTextByte(v ssa.Value) bool {
-	switch x := v.(type) {
-	case *ssa.Index:
-		b, ok := x.X.Type().Underlying().(*types.Basic)
-		return ok && b.Kind() == types.String
-	case *ssa.Lookup:
-		b, ok := x.X.Type().Underlying().(*types.Basic)
-		return ok && b.Kind() == types.String
-	}
-	return false
-}
-
-// ---------------------------------------------------------------------------------------------
 // C09.R19: what RunFiles opens after listing a directory is not a directory.
 //
 // RunFiles expands a directory argument itself (os.ReadDir). An entry of that listing that goes on to be opened as a file must
@@ -1412,4 +1284,508 @@ func (c *Ctx) reachesInPkg(from, target *ssa.Function) string {
 		}
 	}
 	return ""
+}
+
+// ---------------------------------------------------------------------------------------------
+// C09.R21: no method is called on an interface value that a helper may have left nil.
+//
+// The values of the process language travel as an interface (ProcessValue, Value). A helper that answers "nothing" with a nil
+// interface (a statement list that ends without `return`) obliges every caller to test before calling a method on the result:
+// v.getBoolean() on a nil interface is a nil dereference at run time. Every method call in package engine on the direct result of
+// a repository function that has a `return nil` for that result must be dominated by a test of the value against nil.
+func ruleNoMethodOnNilResult(c *Ctx, rule string) {
+	r := c.R
+	// which results of which functions can be a nil interface constant (directly, or by handing on such a result)
+	type rk struct {
+		fn  *ssa.Function
+		idx int
+	}
+	mayNil := map[rk]string{}
+	for changed := true; changed; {
+		changed = false
+		for _, fn := range c.SrcFuncs("engine") {
+			instrsOf(fn, func(in ssa.Instruction) {
+				ret, ok := in.(*ssa.Return)
+				if !ok {
+					return
+				}
+				for i, v := range ret.Results {
+					if _, isIface := v.Type().Underlying().(*types.Interface); !isIface {
+						continue
+					}
+					k := rk{fn, i}
+					if _, done := mayNil[k]; done {
+						continue
+					}
+					for _, leaf := range phiLeaves(v, nil) {
+						if isNilConst(leaf) {
+							mayNil[k] = c.pos(ret.Pos()) + " returns nil"
+							changed = true
+						}
+						if call, ok := leaf.(*ssa.Call); ok {
+							if sc := call.Call.StaticCallee(); sc != nil {
+								if why, ok := mayNil[rk{sc, 0}]; ok && sc.Signature.Results().Len() == 1 {
+									mayNil[k] = why
+									changed = true
+								}
+							}
+						}
+					}
+				}
+			})
+		}
+	}
+	n := 0
+	for _, fn := range c.SrcFuncs("engine") {
+		instrsOf(fn, func(in ssa.Instruction) {
+			call, ok := in.(ssa.CallInstruction)
+			if !ok || !call.Common().IsInvoke() {
+				return
+			}
+			recv := call.Common().Value
+			var why string
+			for _, leaf := range phiLeaves(recv, nil) {
+				switch x := leaf.(type) {
+				case *ssa.Call:
+					if sc := x.Call.StaticCallee(); sc != nil && sc.Signature.Results().Len() == 1 {
+						if w, ok := mayNil[rk{sc, 0}]; ok {
+							why = fnName(sc) + ": " + w
+						}
+					}
+				case *ssa.Extract:
+					if cl, ok := x.Tuple.(*ssa.Call); ok {
+						if sc := cl.Call.StaticCallee(); sc != nil {
+							// a result that comes with a flag (`value, found := table.Get(name)`) has its own protocol: a caller that drops
+							// the flag relies on knowing that the name is there (it iterates over the table's keys) - not decided here
+							hasFlag := false
+							res := sc.Signature.Results()
+							for i := 0; i < res.Len(); i++ {
+								if b, ok := res.At(i).Type().Underlying().(*types.Basic); ok && b.Kind() == types.Bool {
+									hasFlag = true
+								}
+							}
+							if w, ok := mayNil[rk{sc, x.Index}]; ok && !hasFlag {
+								why = fnName(sc) + ": " + w
+							}
+						}
+					}
+				}
+			}
+			if why == "" {
+				return
+			}
+			n++
+			ob := r.Ob(rule, fmt.Sprintf("%s: %s is called on a value that is not nil", fnName(fn), call.Common().Method.Name()), c.pos(in.Pos()))
+			for _, l := range domConds(fn, in.Block()) {
+				cmp, ok := l.Cond.(*ssa.BinOp)
+				if !ok || (cmp.Op != token.NEQ && cmp.Op != token.EQL) {
+					continue
+				}
+				var other ssa.Value
+				if cmp.X == recv {
+					other = cmp.Y
+				} else if cmp.Y == recv {
+					other = cmp.X
+				}
+				if other != nil && isNilConst(other) && (cmp.Op == token.NEQ) == l.Pol {
+					ob.OKnt("behind " + l.String())
+					return
+				}
+			}
+			// `value, found := table.Get(name)`: the flag that came with the value was tested
+			for _, leaf := range phiLeaves(recv, nil) {
+				ex, ok := leaf.(*ssa.Extract)
+				if !ok {
+					continue
+				}
+				for _, l := range domConds(fn, in.Block()) {
+					v, pol := l.Cond, l.Pol
+					for {
+						u, isNot := v.(*ssa.UnOp)
+						if !isNot || u.Op != token.NOT {
+							break
+						}
+						v, pol = u.X, !pol
+					}
+					if flag, ok := v.(*ssa.Extract); ok && flag.Tuple == ex.Tuple && flag.Index != ex.Index && pol {
+						if b, ok := flag.Type().Underlying().(*types.Basic); ok && b.Kind() == types.Bool {
+							ob.OKnt("behind the flag that came with the value: " + l.String())
+							return
+						}
+					}
+				}
+			}
+			ob.Bad("the receiver " + exprStr(recv) + " can be a nil interface (" + why + ") and no test against nil lies on the way: the call dereferences nil and the run panics")
+		})
+	}
+	ob := r.Ob(rule, "method calls on results that may be a nil interface", "")
+	ob.OK(fmt.Sprintf("%d function result(s) of package engine can be a nil interface; %d method call(s) on such results examined", len(mayNil), n))
+}
+
+// ---------------------------------------------------------------------------------------------
+// C08.R16: the generator takes the k-th element of a text or list only after it has seen that there are more than k.
+//
+// Strings of the program may be empty (`in ” to 'z'`), lists may be empty. In package bytecode every index with a constant k into
+// a string or a slice must be dominated by a comparison of that collection's length which implies that it has more than k
+// elements; otherwise some source text makes Compile panic with an index out of range.
+func ruleConstantIndexesGuarded(c *Ctx, rule string, pkgs []string) {
+	r := c.R
+	n := 0
+	for _, pkg := range pkgs {
+		for _, fn := range c.SrcFuncs(pkg) {
+			k := 0
+			for _, s := range indexSites(fn) {
+				idx, ok := constInt(s.idx)
+				if !ok {
+					continue
+				}
+				switch s.coll.Type().Underlying().(type) {
+				case *types.Slice:
+				case *types.Basic:
+				default:
+					continue // arrays have a static bound
+				}
+				// a slice literal or a slice of a local array built here has a known length
+				if sl, ok := s.coll.(*ssa.Slice); ok {
+					if a, ok := sl.X.(*ssa.Alloc); ok {
+						if arr, ok := deref(a.Type()).Underlying().(*types.Array); ok && arr.Len() > idx {
+							continue
+						}
+					}
+				}
+				// only what comes from the program: a text or a list of an AST node, a string handed in. A list the function builds
+				// itself (append chains, literals) has the length the function gave it
+				if !fromProgramData(s.coll, 0) {
+					continue
+				}
+				n++
+				k++
+				coll := exprStr(s.coll)
+				ob := r.Ob(rule, fmt.Sprintf("%s: constant index #%d %s[%d] is within bounds", fnName(fn), k, coll, idx), c.pos(s.in.Pos()))
+				guarded := ""
+				for _, l := range domConds(fn, s.in.Block()) {
+					cmp, ok := l.Cond.(*ssa.BinOp)
+					if !ok {
+						continue
+					}
+					x, y, op := cmp.X, cmp.Y, cmp.Op
+					if _, isConst := x.(*ssa.Const); isConst {
+						x, y = y, x
+						switch op {
+						case token.LSS:
+							op = token.GTR
+						case token.GTR:
+							op = token.LSS
+						case token.LEQ:
+							op = token.GEQ
+						case token.GEQ:
+							op = token.LEQ
+						}
+					}
+					lc, isCall := x.(*ssa.Call)
+					if !isCall {
+						continue
+					}
+					if b, ok := lc.Call.Value.(*ssa.Builtin); !ok || b.Name() != "len" || exprStr(lc.Call.Args[0]) != coll {
+						continue
+					}
+					cv, ok := constInt(y)
+					if !ok {
+						continue
+					}
+					// what the literal says about len on the way to the index
+					implies := false
+					if l.Pol {
+						switch op {
+						case token.GTR:
+							implies = cv >= idx
+						case token.GEQ, token.EQL:
+							implies = cv > idx
+						case token.NEQ:
+							implies = cv == 0 && idx == 0
+						}
+					} else {
+						switch op {
+						case token.LSS:
+							implies = cv > idx
+						case token.LEQ:
+							implies = cv >= idx
+						case token.EQL:
+							implies = cv == 0 && idx == 0
+						}
+					}
+					if implies {
+						guarded = l.String()
+					}
+				}
+				if guarded != "" {
+					ob.OKnt("behind " + guarded)
+				} else {
+					ob.Bad(fmt.Sprintf("nothing on the way says that %s has more than %d element(s): an empty (or shorter) text or list in the program makes Compile panic with an index out of range", coll, idx))
+				}
+			}
+		}
+	}
+	ob := r.Ob(rule, "constant indexes into texts and lists in the generator", "")
+	ob.OK(fmt.Sprintf("%d site(s) examined", n))
+}
+
+// ---------------------------------------------------------------------------------------------
+// C19.R8: a lock that is released by a plain Unlock is not held across a call that can panic.
+//
+// Process code can panic at run time (a division by zero, an operation on a value of an unexpected type), and callers may recover.
+// A lock whose Unlock is not deferred stays held when something between Lock and Unlock panics; the next Lock of the same mutex -
+// in another goroutine, or in the same one after the recovery - never returns. Between a Lock and a non-deferred Unlock of package
+// engine, ast, bytecode or libvore nothing may call into the repository.
+func ruleNoPanicUnderPlainLock(c *Ctx, rule string, pkgs []string) {
+	r := c.R
+	n := 0
+	for _, pkg := range pkgs {
+		for _, fn := range c.SrcFuncs(pkg) {
+			var locks, unlocks []ssa.Instruction
+			deferred := map[string]bool{}
+			instrsOf(fn, func(in ssa.Instruction) {
+				var cc *ssa.CallCommon
+				isDefer := false
+				switch x := in.(type) {
+				case *ssa.Call:
+					cc = &x.Call
+				case *ssa.Defer:
+					cc, isDefer = &x.Call, true
+				}
+				if cc == nil {
+					return
+				}
+				sc := cc.StaticCallee()
+				if sc == nil || sc.Pkg == nil || sc.Pkg.Pkg.Path() != "sync" || len(cc.Args) == 0 {
+					return
+				}
+				switch sc.Name() {
+				case "Lock", "RLock":
+					if !isDefer {
+						locks = append(locks, in)
+					}
+				case "Unlock", "RUnlock":
+					if isDefer {
+						deferred[exprStr(cc.Args[0])] = true
+					} else {
+						unlocks = append(unlocks, in)
+					}
+				}
+			})
+			if len(locks) == 0 {
+				continue
+			}
+			live := newLiveCFG(fn)
+			for _, lk := range locks {
+				mu := exprStr(lk.(*ssa.Call).Call.Args[0])
+				n++
+				ob := r.Ob(rule, fmt.Sprintf("%s: %s is released also when something panics", fnName(fn), mu), c.pos(lk.Pos()))
+				if deferred[mu] {
+					ob.OKnt("the Unlock is deferred")
+					continue
+				}
+				witness := ""
+				instrsOf(fn, func(in ssa.Instruction) {
+					if witness != "" || in == lk || !live.after(lk, in) {
+						return
+					}
+					between := false
+					for _, ul := range unlocks {
+						if exprStr(ul.(*ssa.Call).Call.Args[0]) == mu && live.after(in, ul) {
+							between = true
+						}
+					}
+					if !between {
+						return
+					}
+					call, ok := in.(ssa.CallInstruction)
+					if !ok {
+						return
+					}
+					for _, callee := range c.calleesOf(call) {
+						if c.isRepoFn(callee) {
+							witness = fnName(callee) + " at " + c.pos(in.Pos())
+							return
+						}
+					}
+				})
+				if witness != "" {
+					ob.Bad("between Lock and the plain Unlock the function calls " + witness + ": a panic there (a division by zero in process code, a failed read) leaves " + mu + " held, and every later Lock of it hangs")
+				} else {
+					ob.OKnt("nothing of the repository is called between Lock and Unlock")
+				}
+			}
+		}
+	}
+	r.Floor(rule, "lock acquisitions examined", n, 1)
+}
+
+// ---------------------------------------------------------------------------------------------
+// C19.R9: the library does not write into the slices it is handed.
+//
+// Run and RunFiles may be called from many goroutines with the same arguments (one list of file names for several programs). A
+// function of package engine or libvore that appends to a re-slice of a slice parameter (kept := names[:0]; kept = append(kept, x))
+// or stores into an element of a slice parameter writes into the caller's array: two goroutines race on it, and the next call with
+// the same list sees a different list.
+func ruleNoWriteIntoCallersSlice(c *Ctx, rule string) {
+	r := c.R
+	nfn := 0
+	var fns []*ssa.Function
+	for _, pkg := range []string{"engine", "libvore"} {
+		fns = append(fns, c.SrcFuncs(pkg)...)
+	}
+	// per function: the values that share an array with one of its slice parameters, and which of them were reached through a
+	// re-slice (their elements lie inside the list the caller sees)
+	type info struct {
+		shares   map[ssa.Value]*ssa.Parameter
+		resliced map[ssa.Value]bool
+	}
+	infos := map[*ssa.Function]*info{}
+	for _, fn := range fns {
+		inf := &info{map[ssa.Value]*ssa.Parameter{}, map[ssa.Value]bool{}}
+		for _, p := range fn.Params {
+			if _, ok := p.Type().Underlying().(*types.Slice); ok {
+				inf.shares[p] = p
+			}
+		}
+		if len(inf.shares) == 0 {
+			continue
+		}
+		infos[fn] = inf
+		for changed := true; changed; {
+			changed = false
+			instrsOf(fn, func(in ssa.Instruction) {
+				switch x := in.(type) {
+				case *ssa.Slice:
+					if p, ok := inf.shares[x.X]; ok && inf.shares[x] == nil {
+						inf.shares[x] = p
+						inf.resliced[x] = true
+						changed = true
+					}
+				case *ssa.Phi:
+					for _, e := range x.Edges {
+						if p, ok := inf.shares[e]; ok {
+							if inf.shares[x] == nil {
+								inf.shares[x] = p
+								changed = true
+							}
+							if inf.resliced[e] && !inf.resliced[x] {
+								inf.resliced[x] = true
+								changed = true
+							}
+						}
+					}
+				case *ssa.Call:
+					// the result of an append to such a value still lies in the same array while there is room
+					if b, ok := x.Call.Value.(*ssa.Builtin); ok && b.Name() == "append" && len(x.Call.Args) > 0 {
+						if p, ok := inf.shares[x.Call.Args[0]]; ok && inf.resliced[x.Call.Args[0]] && inf.shares[x] == nil {
+							inf.shares[x] = p
+							inf.resliced[x] = true
+							changed = true
+						}
+					}
+				}
+			})
+		}
+	}
+	// whose list is it? the slice parameters of the exported entry points are the callers'; so is a parameter that is handed a
+	// value sharing its array with such a parameter
+	external := map[*ssa.Parameter]bool{}
+	for fn, inf := range infos {
+		if token.IsExported(fn.Name()) {
+			for _, p := range inf.shares {
+				external[p] = true
+			}
+		}
+	}
+	for changed := true; changed; {
+		changed = false
+		for fn, inf := range infos {
+			instrsOf(fn, func(in ssa.Instruction) {
+				call, ok := in.(*ssa.Call)
+				if !ok {
+					return
+				}
+				sc := call.Call.StaticCallee()
+				if sc == nil || infos[sc] == nil {
+					return
+				}
+				for i, a := range call.Call.Args {
+					if p, ok := inf.shares[a]; ok && external[p] && i < len(sc.Params) && !external[sc.Params[i]] {
+						if _, isSlice := sc.Params[i].Type().Underlying().(*types.Slice); isSlice {
+							external[sc.Params[i]] = true
+							changed = true
+						}
+					}
+				}
+			})
+		}
+	}
+	for _, fn := range fns {
+		inf := infos[fn]
+		if inf == nil {
+			continue
+		}
+		nfn++
+		k := 0
+		instrsOf(fn, func(in ssa.Instruction) {
+			switch x := in.(type) {
+			case *ssa.Call:
+				if b, ok := x.Call.Value.(*ssa.Builtin); ok && b.Name() == "append" && len(x.Call.Args) > 0 {
+					if p, ok := inf.shares[x.Call.Args[0]]; ok && external[p] && inf.resliced[x.Call.Args[0]] {
+						k++
+						r.Ob(rule, fmt.Sprintf("%s: append #%d does not write into the array of parameter %s", fnName(fn), k, p.Name()), c.pos(x.Pos())).
+							Bad("appends to " + exprStr(x.Call.Args[0]) + ", a re-slice of the parameter " + p.Name() + " (a list handed in by the caller of the library): the elements are written into the caller's array - goroutines that share the list race on it and a later call with the same list sees it changed")
+					}
+				}
+			case *ssa.Store:
+				if ia, ok := x.Addr.(*ssa.IndexAddr); ok {
+					if p, ok := inf.shares[ia.X]; ok && external[p] {
+						k++
+						r.Ob(rule, fmt.Sprintf("%s: store #%d does not write into the array of parameter %s", fnName(fn), k, p.Name()), c.pos(x.Pos())).
+							Bad("stores into an element of " + exprStr(ia.X) + ", which shares its array with the parameter " + p.Name() + " (a list handed in by the caller of the library): the caller's list is modified")
+					}
+				}
+			}
+		})
+	}
+	ob := r.Ob(rule, "functions of engine and libvore that take a slice", "")
+	ob.OK(fmt.Sprintf("%d function(s) examined for writes through a slice parameter", nfn))
+	r.Floor(rule, "functions with slice parameters examined", nfn, 3)
+}
+
+// fromProgramData: the collection is (a conversion or a re-slice of) a field of an AST node or a string parameter.
+func fromProgramData(v ssa.Value, d int) bool {
+	if d > 6 {
+		return false
+	}
+	isAst := func(t types.Type) bool {
+		n, ok := deref(t).(*types.Named)
+		return ok && n.Obj().Pkg() != nil && strings.HasSuffix(n.Obj().Pkg().Path(), "/ast")
+	}
+	switch x := v.(type) {
+	case *ssa.Convert:
+		return fromProgramData(x.X, d+1)
+	case *ssa.ChangeType:
+		return fromProgramData(x.X, d+1)
+	case *ssa.Slice:
+		return fromProgramData(x.X, d+1)
+	case *ssa.Field:
+		return isAst(x.X.Type()) || fromProgramData(x.X, d+1)
+	case *ssa.UnOp:
+		if fa, ok := x.X.(*ssa.FieldAddr); ok {
+			return isAst(fa.X.Type()) || fromProgramData(fa.X, d+1)
+		}
+	case *ssa.Parameter:
+		b, ok := x.Type().Underlying().(*types.Basic)
+		return ok && b.Info()&types.IsString != 0
+	case *ssa.Phi:
+		for _, e := range x.Edges {
+			if e != ssa.Value(x) && fromProgramData(e, d+1) {
+				return true
+			}
+		}
+	}
+	return false
 }
